@@ -30,10 +30,10 @@ CLAIMS = {
     "C15": {
         "text": "Theorems (all parameters, all streams): min/max mode never consume a word; every XdY term's min/max-mode dice sit "
                 "at the clamped extreme face (bounds attained); min <= random <= max for XdY with keep/drop/min/max under "
-                "NoOverflow; Fate is within [-4,4]; monotone expressions inherit the bracket by induction. The CoC penalty "
-                "lower bound is refuted by a proved witness (known finding). Tie: roll streams in the three modes; oracle: "
+                "NoOverflow; Fate is within [-4,4]; monotone expressions inherit the bracket by induction; CoC bonus and penalty "
+                "dice give 1 / 100 in min / max mode without a draw and every roll lies between (coc_bracket, after a repair). Tie: roll streams in the three modes; oracle: "
                 "bracket, attainment and untouched generator on the implementation, also through the VM syntax.",
-        "note": TB + "CoC bonus bracket is validated by the stream/oracle only.",
+        "note": TB + "Sides above 2^63-2 (unsupported size) are a recorded finding.",
         "technique": "Lean 4 theorems (bracketing by induction) + three-mode differential streams",
     },
     "C12": {
